@@ -33,7 +33,7 @@ var c16Topics = []string{"t1", "t2"}
 // half-dead-current: the broker's writes to the current connection start failing while its read loop keeps
 // waiting (the broker then closes the connection on the next write, but the connection stays registered and
 // its read loop notices only when the link is finally dropped, as a "superseded"/dead connection).
-var c16Events = []string{"connect-clean", "connect-keep", "subscribe-t1", "subscribe-t2", "unsubscribe-t1", "drop-current", "drop-superseded", "admin-delete", "half-dead-current", "storage-stalls", "storage-resumes"}
+var c16Events = []string{"connect-clean", "connect-keep", "subscribe-t1", "subscribe-t2", "subscribe-t1-qos0", "unsubscribe-t1", "drop-current", "drop-superseded", "admin-delete", "half-dead-current", "storage-stalls", "storage-resumes"}
 
 // storage-stalls / storage-resumes: the session store (etcd) stops answering puts for a while; what was written
 // meanwhile is persisted, in order, when it resumes.  Connections are only attempted while the storage works
@@ -76,21 +76,29 @@ func TestVerifC16(t *testing.T) {
 					for _, cl := range conns {
 						cl.take()
 					}
-					vb.httpPublish(tp, 0, "probe")
-					for i, cl := range conns {
-						got := len(publishesOf(cl.take()))
-						if i == ref.current {
-							want := 0
-							if ref.subs[tp] {
-								want = 1
-							}
-							if got != want {
-								kind := "current-connection-misses-message"
-								if got > want {
-									kind = "current-connection-gets-unsubscribed-topic"
+					for _, pq := range []int{0, 1} {
+						if pq == 1 && tp != "t1" {
+							continue // only t1 is ever subscribed at QoS 0
+						}
+						for _, cl := range conns {
+							cl.take()
+						}
+						vb.httpPublish(tp, pq, "probe")
+						for i, cl := range conns {
+							got := len(publishesOf(cl.take()))
+							if i == ref.current {
+								want := 0
+								if (pq == 0 && ref.subs[tp]) || (pq == 1 && ref.subs[tp+"#q1"]) {
+									want = 1
 								}
-								c.Failf(kind+":after-"+after, "history %v: probe on %s: current connection #%d received %d copies, reference expects %d (subscriptions %s, persisted %s)",
-									hist, tp, i, got, want, setStr(ref.subs), setStr(ref.persisted))
+								if got != want {
+									kind := "current-connection-misses-message"
+									if got > want {
+										kind = "current-connection-gets-unsubscribed-topic"
+									}
+									c.Failf(kind+":after-"+after, "history %v: QoS %d probe on %s: current connection #%d received %d copies, reference expects %d (subscriptions %s, persisted %s)",
+										hist, pq, tp, i, got, want, setStr(ref.subs), setStr(ref.persisted))
+								}
 							}
 						}
 					}
@@ -126,7 +134,7 @@ func TestVerifC16(t *testing.T) {
 						// reading: what a session delete means for writes that the stalled storage has not
 						// applied yet is not defined by the statement, so the two are not combined
 						ok = ref.current >= 0 && !stalled
-					case "subscribe-t1", "subscribe-t2", "unsubscribe-t1", "drop-current", "half-dead-current":
+					case "subscribe-t1", "subscribe-t2", "subscribe-t1-qos0", "unsubscribe-t1", "drop-current", "half-dead-current":
 						ok = ref.current >= 0
 					case "drop-superseded":
 						ok = false
@@ -157,6 +165,9 @@ func TestVerifC16(t *testing.T) {
 				case "connect-clean", "connect-keep":
 					clean := e == "connect-clean"
 					cl := vb.connect("c", clean)
+					cl.mu.Lock()
+					cl.autoAck = true // QoS 1 probes are acknowledged at once: no retransmission reaches a later probe
+					cl.mu.Unlock()
 					if cl.connack != packets.Accepted {
 						c.Failf("connect-refused", "history %v: CONNACK %d", hist, cl.connack)
 					}
@@ -174,12 +185,22 @@ func TestVerifC16(t *testing.T) {
 					} else {
 						ref.persisted = cloneSet(ref.subs)
 					}
-				case "subscribe-t1", "subscribe-t2":
-					tp := e[len("subscribe-"):]
-					if !conns[ref.current].subscribe(tp, 1) {
+				case "subscribe-t1", "subscribe-t2", "subscribe-t1-qos0":
+					// the QoS of a subscription is part of the session: "t#q1" in the reference sets = subscribed at QoS 1;
+					// a SUBSCRIBE for a topic the session already has replaces its QoS
+					tp, q := strings.TrimSuffix(e[len("subscribe-"):], "-qos0"), byte(1)
+					if strings.HasSuffix(e, "-qos0") {
+						q = 0
+					}
+					if !conns[ref.current].subscribe(tp, q) {
 						c.Failf("subscribe-not-acked", "history %v", hist)
 					}
 					ref.subs[tp] = true
+					if q == 1 {
+						ref.subs[tp+"#q1"] = true
+					} else {
+						delete(ref.subs, tp+"#q1")
+					}
 					if !ref.clean {
 						ref.persisted = cloneSet(ref.subs)
 					}
@@ -189,6 +210,7 @@ func TestVerifC16(t *testing.T) {
 					conns[ref.current].send(p)
 					synctest.Wait()
 					delete(ref.subs, "t1")
+					delete(ref.subs, "t1#q1")
 					if !ref.clean {
 						ref.persisted = cloneSet(ref.subs)
 					}
